@@ -50,16 +50,18 @@ func (e *Engine) jStr(s string) *JNode { return &JNode{Kind: JStr, Str: e.StrCon
 // newDoc allocates a document object and returns a []byte slice value for it.
 func (e *Engine) newDoc(st *State, root *JNode) *SliceV {
 	e.j2.n++
-	ln := e.tb.Fresh("j2len"+strconv.Itoa(e.j2.n), 64)
+	// opaque serialisation length: 2..65535 (documents longer than the event size limit are outside the J2 model;
+	// the size-limit clause is checked on explicit lengths in C17)
+	lv := e.tb.Fresh("j2len"+strconv.Itoa(e.j2.n), 16)
+	ln := e.tb.ZExt(lv, 64)
 	m := st.model
-	st.assume(e.tb.Cmp(OpULe, e.tb.Int64(2), ln))
-	st.assume(e.tb.Cmp(OpULe, ln, e.tb.Int64(1<<30)))
+	st.assume(e.tb.Cmp(OpULe, e.tb.Const(16, 2), lv))
 	if m != nil {
 		nm := make(map[string]uint64, len(m)+1)
 		for k, v := range m {
 			nm[k] = v
 		}
-		nm[ln.Name] = 2
+		nm[lv.Name] = 2
 		st.model = nm
 	}
 	id := e.alloc(st, &JDocV{Root: root, Len: ln})
